@@ -268,7 +268,8 @@ def _optimize_char_class(singles: list[str], ranges: list[tuple[str, str]]) -> s
     for start, end in ranges:
         s_cp, e_cp = ord(start), ord(end)
         if s_cp > e_cp:
-            s_cp, e_cp = e_cp, s_cp
+            # An empty range, like 'z'..'a', never matches.
+            continue
         norm_ranges.append((s_cp, e_cp))
 
     # Merge ranges
@@ -292,4 +293,6 @@ def _optimize_char_class(singles: list[str], ranges: list[tuple[str, str]]) -> s
             parts_out.append(re.escape(chr(s)))
         else:
             parts_out.append(f"{re.escape(chr(s))}-{re.escape(chr(e))}")
+    if not parts_out:
+        return "(?!)"
     return "[" + "".join(parts_out) + "]"
